@@ -746,6 +746,23 @@ struct T16 {
         }
         break;
       }
+      case K_MAP_MOVE_ASSIGN: {
+        allow(c, 0, N, true);
+        std::memmove(mi(c, r), mi(c, sr), sizeof(S) * N);
+        with_mut(c, [&](auto& m) {
+          smooth::Map<G> s(ar(c, sr));
+          m = std::move(s);
+        });
+        break;
+      }
+      case K_SET_RANDOM: {
+        allow(c, 0, N, false);
+        with_mut(c, [](auto& m) { m.setRandom(); });
+        // the generator is process-wide state (std::rand): only the write set is checked, the
+        // model takes over whatever was stored
+        std::memmove(mi(c, r), ar(c, r), sizeof(S) * N);
+        break;
+      }
       default: c.applicable = 0; break;
     }
   }
